@@ -159,6 +159,10 @@ func (s tstep) lean() string {
 		return fmt.Sprintf(".uintLax %d", s.Bits)
 	case "typelist":
 		return ".typeList"
+	case "saltne":
+		return ".saltNE"
+	case "tokne":
+		return ".tokNE"
 	case "mnem":
 		return fmt.Sprintf(".mnem %d %d", s.Group, s.Bits)
 	case "endstrsplit":
@@ -233,6 +237,7 @@ func (p *pkgInfo) parsePlanOf(fd *ast.FuncDecl, depth int) ([]tstep, bool) {
 	strTok := ""                            // field that takes the token after an `if l.value != zString` check
 	nodeVar, nodeErr := "", ""              // the last stringToNodeID: value variable, error variable
 	uintLax := false                        // the error check behind the last ParseUint did not look at l.err
+	nonEmpty := false                       // `if l.token == "" || l.err { return … }` stands in front of the next idiom
 	typeList := false                       // the type-bitmap loop has been seen (nothing may follow but `return nil`)
 	lhsNames := func(s *ast.AssignStmt) []string {
 		var ns []string
@@ -304,6 +309,12 @@ func (p *pkgInfo) parsePlanOf(fd *ast.FuncDecl, depth int) ([]tstep, bool) {
 						out = append(out, tstep{Kind: "name", Field: f})
 						nameVar = ""
 						continue
+					case rhs == "l.token" && nonEmpty:
+						out = append(out, tstep{Kind: "tokne", Field: f})
+						nonEmpty = false
+						continue
+					case f == "HashLength" && rhs == "20" && nonEmpty:
+						continue // NSEC3: the length of a SHA-1 hash, not a text field
 					case rhs == "l.token" && rawTok == f:
 						out = append(out, tstep{Kind: "tok", Field: f})
 						rawTok = ""
@@ -351,8 +362,20 @@ func (p *pkgInfo) parsePlanOf(fd *ast.FuncDecl, depth int) ([]tstep, bool) {
 				}
 				return nil, false
 			}
+			// `if l.token == "" || l.err { return … }`: the token that the next idiom takes must not be empty
+			if s.Else == nil && s.Init == nil && p.src(s.Cond) == `l.token==""||l.err` && len(s.Body.List) == 1 && !nonEmpty {
+				if _, ok := s.Body.List[0].(*ast.ReturnStmt); ok {
+					nonEmpty = true
+					continue
+				}
+			}
 			// the salt of NSEC3PARAM: `if l.token != "-" { rr.SaltLength = uint8(len(l.token) / 2); rr.Salt = l.token }`
 			if s.Else == nil && s.Init == nil && p.src(s) == `ifl.token!="-"{rr.SaltLength=uint8(len(l.token)/2)rr.Salt=l.token}` {
+				if nonEmpty {
+					out = append(out, tstep{Kind: "saltne", Field: "Salt"})
+					nonEmpty = false
+					continue
+				}
 				out = append(out, tstep{Kind: "salt", Field: "Salt"})
 				continue
 			}
@@ -460,7 +483,7 @@ func (p *pkgInfo) parsePlanOf(fd *ast.FuncDecl, depth int) ([]tstep, bool) {
 			return nil, false
 		}
 	}
-	if uintVar != "" || nameVar != "" || endVar != "" || rawTok != "" || strTok != "" || nodeVar != "" {
+	if uintVar != "" || nameVar != "" || endVar != "" || rawTok != "" || strTok != "" || nodeVar != "" || nonEmpty {
 		return nil, false
 	}
 	return out, true
